@@ -79,6 +79,26 @@ fn loss(a: &[f64]) {
     println!("{}", json!({"values": vals}));
 }
 
+/// C16: reported volume vs integral of one with the grid's own weights: args geometry(0 cart,1 polar,2 spherical) n L
+fn axis_volume(a: &[f64]) {
+    use feos::hard_sphere::{FMTFunctional, FMTVersion};
+    use feos_dft::{Axis, DFTProfile, Grid};
+    use ndarray::{Array1, Ix1};
+    let n = a[1] as usize;
+    let len = a[2] * ANGSTROM;
+    let axis = match a[0] as usize {
+        0 => Axis::new_cartesian(n, len, None),
+        1 => Axis::new_polar(n, len),
+        _ => Axis::new_spherical(n, len),
+    };
+    let func = Arc::new(FMTFunctional::new(&arr1(&[1.0]), FMTVersion::WhiteBear));
+    let bulk = State::new_nvt(&func, 300.0 * KELVIN, Volume::from_reduced(1000.0), &(arr1(&[100.0 / 6.02214076e23]) * MOL)).unwrap();
+    let profile: DFTProfile<Ix1, FMTFunctional> = DFTProfile::new(Grid::new_1d(axis), &bulk, None, None, None);
+    let ones = Quantity::<Array1<f64>, quantity::_Dimensionless>::new(Array1::ones(n));
+    let integral = profile.integrate(&ones);
+    println!("{}", json!({"volume": profile.volume().to_reduced(), "integral_of_one": integral.to_reduced()}));
+}
+
 fn main() {
     let args: Vec<String> = std::env::args().collect();
     let nums: Vec<f64> = args[2..].iter().map(|x| x.parse().unwrap()).collect();
@@ -86,6 +106,7 @@ fn main() {
         "density_exhaustion" => density_exhaustion(&nums),
         "density_scan" => density_scan(&nums),
         "loss" => loss(&nums),
+        "axis_volume" => axis_volume(&nums),
         o => panic!("unknown replay {o}"),
     }
 }
